@@ -149,7 +149,7 @@ pub fn run(ctx: &Ctx) -> Report {
         st.record(&v, stable_hash(&c), true, || json!({"kind": "units", "count": c}));
     }
     total.merge(st);
-    let cases = ctx.tier.pick(200_000u32, 3_000_000u32);
+    let cases = ctx.tier.pick(800_000u32, 8_000_000u32);
     let rnd = run_shards(16, |shard| {
         let mut st = Stats::new();
         run_prop(&mut st, ctx.seed, "C19", shard as u64, cases / 16, &any_tree(12, 48), judge_tree, case_json);
